@@ -136,6 +136,10 @@ func (d *actorDriver) List() []metav1.Object {
 		if err != nil || g != o {
 			panic("Get disagrees with List")
 		}
+		// GetObject(obj) is Get(obj's namespace, obj's name)
+		if g2, err := d.a.Reader().GetObject(o); err != nil || g2 != o {
+			panic("GetObject disagrees with Get")
+		}
 	}
 	return l
 }
